@@ -41,6 +41,7 @@ def task_program(rng, i):
         kind = rng.pick(["layered", "layered", "map", "roundtrip", "badfile", "merge", "errstr"])
         if kind == "layered":
             w = gen.gen_layered_world(rng, rng.randrange(64), two_layer=rng.chance(0.5), small=True, allow_refuse=False)
+            w["read"].pop("rel", None)      # the working directory is process-wide: tasks use absolute names
             w = sub(w, i * 10 + b)
             ep = w["read"]["ep"]
             if ep == "readDirs" and rng.chance(0.4):
